@@ -105,6 +105,14 @@ def check_value(acc, spec, thorough):
             return None, None
         return want, got
 
+    # the dict shared_atts hands out belongs to the caller: editing it must not leak into later results
+    try:
+        d_ = f.shared_atts
+        d_["bold"] = True
+        d_["fg"] = 36
+        d_.pop("bg", None)
+    except Exception as ex:  # noqa
+        acc.failure("C15:exception_mismatch:shared_atts", {"f": shown}, repr(ex))
     # --- native split ---------------------------------------------------------------------------
     def pieces_check(sig, label, got, bounds):
         case = {"f": shown, "call": label}
@@ -168,6 +176,8 @@ def check_value(acc, spec, thorough):
         ("other.join([f, 'k', f]) again", lambda: (other.join([f, "k", f]), "q".join([text, "k", text]), sc_join(C.cells(other), [fc, [("k", ())], fc]))),
         ("fmtstr('').join([f, other])", lambda: (_fmtstr("").join([f, other]), text + "q", fc + C.cells(other))),
         ("fmtstr('').join([f, other]) again", lambda: (_fmtstr("").join([f, other]), text + "q", fc + C.cells(other))),
+        ("fmtstr(', ').join(generator of str)", lambda: (_fmtstr(", ").join(x for x in ["a", "b", text]), ", ".join(["a", "b", text]), [(c, ()) for c in ", ".join(["a", "b", text])])),
+        ("fmtstr('-').join(map(str, ...)) with f later", lambda: (_fmtstr("-").join(iter(["p", f, "q"])), "-".join(["p", text, "q"]), [("p", ()), ("-", ())] + fc + [("-", ()), ("q", ())])),
     ):
         case = {"f": shown, "call": label}
         acc.case(n > 0, key=(spec, label), sample=case)
